@@ -115,6 +115,33 @@ class Filtered(AV):
         return f"Filtered(src={tm.show(self.src)[:40]}, gain={tm.show(self.gain)[:100] if self.gain is not None else 1})"
 
 
+def _unwrapped(t):
+    while t.op == "call" and t.args[0] in (".astype", ".copy", "numpy.real", "numpy.asarray", "numpy.array", "cast") and len(t.args) >= 2:
+        t = t.args[1]
+    return t
+
+
+def join_filtered(cterm, a, b):
+    """merge of two branch values when at least one is a filtered map: a branch that hands on the unfiltered input is the filter
+    with gain 1 everywhere (a shortcut that skips the transform)"""
+    fa, fb = isinstance(a, Filtered), isinstance(b, Filtered)
+    if fa and fb and a.src == b.src and a.axes is not None and b.axes is not None and len(a.axes) == len(b.axes):
+        ga = a.gain if a.gain is not None else const(1.0)
+        gb = b.gain if b.gain is not None else const(1.0)
+        gb = tm.subst(gb, {y.sym: x.sym for x, y in zip(a.axes, b.axes)})
+        return Filtered(a.src, mk("ite", cterm, ga, gb), a.axes, a.transformed and b.transformed, a.real and b.real)
+    f, o, f_first = (a, b, True) if fa else (b, a, False)
+    if not isinstance(f, Filtered) or isinstance(o, Filtered) or not hasattr(o, "term"):
+        return None
+    if _unwrapped(o.term) != _unwrapped(f.src):
+        return None
+    g = f.gain if f.gain is not None else const(1.0)
+    gain = mk("ite", cterm, g, const(1.0)) if f_first else mk("ite", cterm, const(1.0), g)
+    r = Filtered(f.src, gain, f.axes, f.transformed, f.real)
+    r.shortcut = True
+    return r
+
+
 def shift_amount(kind, n):
     h = mk("floordiv", n, const(2))
     return mk("neg", h) if kind == "fftshift" else h
